@@ -65,6 +65,8 @@ def o_xor(s, t): return s ^ t
 def o_le(s, t): return s <= t
 def o_ge(s, t): return s >= t
 def mkset(t): return set(t)
+def mktuple(t): return tuple(t)
+def mkkeys(t): return {k: None for k in t}
 def mkdict(p): return dict(p)
 `
 
@@ -344,7 +346,13 @@ func (e *c12Env) apply(d *starlark.Dict, s *starlark.Set, op []int) (res c12Res,
 	case 15: // update operand
 		t := e.keyList(e.setOp[op[1]-1])
 		if star {
-			_, err = e.call("supdate", s, t)
+			var arg starlark.Value = t
+			if (op[1]+s.Len())%2 == 1 {
+				if arg, err = e.call("mktuple", t); err != nil {
+					return fail(), err
+				}
+			}
+			_, err = e.call("supdate", s, arg)
 		} else {
 			it := t.Iterate()
 			err = s.InsertAll(it)
@@ -390,7 +398,23 @@ func (e *c12Env) algebra(s *starlark.Set, op []int) (c12Res, error) {
 		return okRes(iterKeys(v), nil)
 	}
 	if e.route == "star" {
-		v, err := e.call(names[op[0]], s, t)
+		// the operand of the method form is a list, a tuple or (without repeated keys) a dict iterated by its keys
+		var arg starlark.Value = t
+		switch kind := (op[0] + op[1] + s.Len()) % 3; {
+		case kind == 1:
+			tv, err := e.call("mktuple", t)
+			if err != nil {
+				return fail(), err
+			}
+			arg = tv
+		case kind == 2 && !hasDup(tl):
+			dv, err := e.call("mkkeys", t)
+			if err != nil {
+				return fail(), err
+			}
+			arg = dv
+		}
+		v, err := e.call(names[op[0]], s, arg)
 		if err != nil {
 			return fail(), err
 		}
